@@ -47,23 +47,23 @@ Qed.
 Print Assumptions C12_counts.
 
 (* ---- Xunitary: merge of repeated two-mode squeezers ------------------------------------------------ *)
-(* B: the S2gate commands as returned by group_operations, N = half the number of modes, `miss` the order in
-   which Python iterates over the set of pairs without squeezer.  Hypotheses: every command sits on an allowed
-   pair (otherwise the stage raises CircuitError 2), `miss` enumerates exactly the allowed pairs that have no
-   squeezer (ANY duplicate-free enumeration: the result may not depend on set order), and AT MOST ONE pair carries
-   more than one squeezer (this last hypothesis excludes the recorded findings xunitary:s2-merge:*, see the two
-   _refuted theorems below).  Conclusion, for every multiplicity: no IndexError; CircuitError 3 only if two
-   successive squeezers of the repeated pair have different phases (`phases_agree` is the chain of `phi_new != phi`
-   tests in visiting order, last occurrence first); otherwise exactly N commands, exactly one per pair (i, i+N):
-   S2gate(0,0) if the source had none, the source command itself if it had one, and otherwise
-   S2gate(sum of the source r's added from the last occurrence to the first starting from 0, phase of the first). *)
+(* B: the S2gate commands as returned by group_operations (each with its dagger flag), N = half the number of modes,
+   `miss` the order in which Python iterates over the set of pairs without squeezer.  Hypotheses: every command sits on
+   an allowed pair (otherwise the stage raises CircuitError 2) and `miss` enumerates exactly the allowed pairs that have
+   no squeezer (ANY duplicate-free enumeration: the result may not depend on set order).  No restriction on how many
+   pairs carry repeated squeezers.  Conclusion, for every multiplicity on every pair: no IndexError; CircuitError 3
+   only if two successive squeezers of some repeated pair have different phases (`phases_agree` is the chain of
+   `phi_new != phi` tests in visiting order, last occurrence first); otherwise exactly N commands, exactly one per
+   pair (i, i+N): S2gate(0,0) if the source had none, the source command itself (dagger included) if it had one, and
+   otherwise the undaggered S2gate(sum of the signed source r's -- minus r for a daggered gate -- added from the last
+   occurrence to the first starting from 0, phase of the first occurrence). *)
 Theorem C12_s2_merge :
-  forall (K : Type) (kzero : K) (kadd : K -> K -> K) (kneq : K -> K -> bool) (N : nat) (miss : list nat) (B : list (s2 K)),
+  forall (K : Type) (kzero : K) (kadd : K -> K -> K) (kneg : K -> K) (kneq : K -> K -> bool)
+         (N : nat) (miss : list nat) (B : list (s2 K)),
     forallb (allowed K N) B = true ->
     NoDup miss ->
     (forall i, In i miss <-> i < N /\ ~ In (i, i + N) (map (s2key K) B)) ->
-    (forall k1 k2, 1 < count_key k1 (map (s2key K) B) -> 1 < count_key k2 (map (s2key K) B) -> k1 = k2) ->
-    match s2_stage K kzero kadd kneq N miss B with
+    match s2_stage K kzero kadd kneg kneq N miss B with
     | IndexErr => False
     | CircuitErr c =>
         c = 3 /\ exists k, 1 < count_key k (map (s2key K) B) /\
@@ -73,62 +73,92 @@ Theorem C12_s2_merge :
         forall i, i < N ->
           exists c, filter (fun x => key_eqb (s2key K x) (i, i + N)) out = [c] /\ mi c = i /\ mj c = i + N /\
             match filter (fun x => key_eqb (s2key K x) (i, i + N)) B with
-            | [] => c = mkS2 i (i + N) kzero kzero
+            | [] => c = mkS2 i (i + N) kzero kzero false
             | [b] => c = b
-            | bs => c = mkS2 i (i + N) (fold_left kadd (map sr (rev bs)) kzero) (last (map sphi (rev bs)) kzero)
+            | bs => c = mkS2 i (i + N) (fold_left kadd (map (signed_r K kneg) (rev bs)) kzero)
+                              (last (map sphi (rev bs)) kzero) false
                     /\ phases_agree K kneq (rev bs) = true
             end
     end.
 Proof. exact s2_stage_correct. Qed.
 Print Assumptions C12_s2_merge.
 
-(* one iteration of the merge loop is correct for ANY list (several repeated pairs included) as long as the
-   locations were computed on the list it is applied to: the defect is only the staleness of the indices *)
+(* one iteration of the merge loop, on ANY list and with ANY remaining keys *)
 Theorem C12_s2_merge_one_step :
-  forall (K : Type) (kzero : K) (kadd : K -> K -> K) (kneq : K -> K -> bool) (k : key) (B : list (s2 K)),
+  forall (K : Type) (kzero : K) (kadd : K -> K -> K) (kneg : K -> K) (kneq : K -> K -> bool)
+         (k : key) (D : list key) (B : list (s2 K)),
     let bs := filter (fun x => key_eqb (s2key K x) k) B in
-    merge_loop K kzero kadd kneq [(k, positions k (map (s2key K) B))] B =
+    merge_loop K kzero kadd kneg kneq (k :: D) B =
       if phases_agree K kneq (rev bs)
-      then Ok (insert_at (hd 0 (positions k (map (s2key K) B)))
-                 (mkS2 (fst k) (snd k) (fold_left kadd (map sr (rev bs)) kzero) (last (map sphi (rev bs)) kzero))
+      then merge_loop K kzero kadd kneg kneq D
+             (insert_at (hd 0 (positions k (map (s2key K) B)))
+                 (mkS2 (fst k) (snd k) (fold_left kadd (map (signed_r K kneg) (rev bs)) kzero) (last (map sphi (rev bs)) kzero) false)
                  (filter (fun c => negb (key_eqb (s2key K c) k)) B))
       else CircuitErr 3.
-Proof. exact merge_one. Qed.
+Proof. exact merge_step. Qed.
 Print Assumptions C12_s2_merge_one_step.
 
-(* the excluded case is real: with two duplicated pairs the pre-computed indices are stale *)
-Theorem C12_s2_merge_refuted_indexerror :
+(* Refutations of the PRE-FIX stage (s2_stage_old: locations computed once, dagger ignored; repaired in /repo by
+   40078be and ece8029).  They are statements about the explicitly named old definition only. *)
+Theorem C12_s2_merge_old_refuted_indexerror :
   exists (N : nat) (miss : list nat) (B : list (s2 Z)),
     forallb (allowed Z N) B = true /\ NoDup miss /\
     (forall i, In i miss <-> i < N /\ ~ In (i, i + N) (map (s2key Z) B)) /\
-    s2_stage Z 0%Z Z.add zneq N miss B = IndexErr.
-Proof. exact s2_refuted_indexerror. Qed.
-Print Assumptions C12_s2_merge_refuted_indexerror.
+    s2_stage_old Z 0%Z Z.add zneq N miss B = IndexErr.
+Proof. exact s2_old_refuted_indexerror. Qed.
+Print Assumptions C12_s2_merge_old_refuted_indexerror.
 
-(* ... and can silently drop a squeezer: three pairs, two of them doubled: the squeezer of pair (2,5) vanishes *)
-Theorem C12_s2_merge_refuted_silent :
+Theorem C12_s2_merge_old_refuted_silent :
   exists (N : nat) (miss : list nat) (B out : list (s2 Z)),
     forallb (allowed Z N) B = true /\ NoDup miss /\
     (forall i, In i miss <-> i < N /\ ~ In (i, i + N) (map (s2key Z) B)) /\
-    s2_stage Z 0%Z Z.add zneq N miss B = Ok out /\
+    s2_stage_old Z 0%Z Z.add zneq N miss B = Ok out /\
     filter (fun x => key_eqb (s2key Z x) (2, 5)) B <> [] /\
     filter (fun x => key_eqb (s2key Z x) (2, 5)) out = [].
-Proof. exact s2_refuted_silent. Qed.
-Print Assumptions C12_s2_merge_refuted_silent.
+Proof. exact s2_old_refuted_silent. Qed.
+Print Assumptions C12_s2_merge_old_refuted_silent.
+
+Theorem C12_s2_merge_old_refuted_dagger :
+  s2_stage_old Z 0%Z Z.add zneq 1 [] [mkS2 0 1 5 0 true; mkS2 0 1 3 0 false]%Z = Ok [mkS2 0 1 8 0 false]%Z /\
+  s2_stage Z 0%Z Z.add Z.opp zneq 1 [] [mkS2 0 1 5 0 true; mkS2 0 1 3 0 false]%Z = Ok [mkS2 0 1 (-2) 0 false]%Z.
+Proof. exact s2_old_refuted_dagger. Qed.
+Print Assumptions C12_s2_merge_old_refuted_dagger.
+
+(* ---- Xunitary: shape of the returned circuit ---------------------------------------------------------- *)
+(* The corollary chain of DESIGN section 4: Xunitary returns  squeezers ++ mesh(U) on the first half ++ the same
+   mesh moved by N modes ++ measurement.  GIVEN (hypotheses, proved elsewhere or not at all: C02/C17) that the
+   rectangular_symmetric mesh implements the unitary it is built from, and that moving a command by N modes moves its
+   action, the net unitary on modes 0..N-1 and on modes N..2N-1 is U.  That U is the net unitary of the source
+   interferometer is C11's theorem; that Interferometer._decompose really is such a `mesh` is validated by the search
+   (exact state comparison) only. *)
+Definition C12_xunitary_shape_statement : Prop :=
+  forall (G M : Type) (mul : M -> M -> M) (one : M) (sem_lo sem_hi : G -> M)
+         (shift : G -> G) (mesh : M -> list G) (sq : list G) (meas : G) (U : M),
+    (forall V, net mul one sem_lo (mesh V) = V) ->
+    (forall g, sem_hi (shift g) = sem_lo g) ->
+    xunitary_assemble sq (mesh U) shift meas = sq ++ mesh U ++ map shift (mesh U) ++ [meas] /\
+    net mul one sem_lo (mesh U) = U /\ net mul one sem_hi (map shift (mesh U)) = U.
+
+Theorem C12_xunitary_shape_chain : C12_xunitary_shape_statement.
+Proof. exact xunitary_shape_chain. Qed.
+Print Assumptions C12_xunitary_shape_chain.
 
 (* ---- Borealis: compensated phases ------------------------------------------------------------------ *)
-(* For every positive rational pi (np.pi is one), every list of loops and every non-user loop l: each output
-   phase lies in [-pi/2, pi/2] and is congruent modulo pi to  phi_j + corr_l(j) - corr_prev(j), where corr_prev is
-   the correction of the nearest earlier loop that was compensated by the compiler (0 if none). *)
+(* For both variants of the loop (fx = false: the code as it stands; fx = true: with the repair of
+   fix-borealis-partial-user-offsets.diff), every positive rational pi (np.pi is one), every list of loops and every
+   loop l: a skipped loop (user-set; with fx only if no earlier correction is pending) is returned unchanged; otherwise
+   each output phase lies in [-pi/2, pi/2] and is congruent modulo pi to  phi_j + corr_l(j) - corr_prev(j), where
+   corr_l is the loop's own correction (0 for a user-set loop) and corr_prev the correction of the nearest earlier
+   loop that was not skipped (0 if none). *)
 Theorem C12_borealis_range :
-  forall pi : Q, (0 < pi)%Q -> forall loops cp l L out,
-    nth_error loops l = Some L -> nth_error (update_loops pi loops cp) l = Some out ->
+  forall (fx : bool) (pi : Q), (0 < pi)%Q -> forall loops cp l L out,
+    nth_error loops l = Some L -> nth_error (update_loops fx pi loops cp) l = Some out ->
     length out = length (l_phis L) /\
-    if l_user L then out = l_phis L
+    if skips fx L (prev_of fx loops cp l) then out = l_phis L
     else forall j y, nth_error out j = Some y ->
          (- (1 # 2) * pi <= y /\ y <= (1 # 2) * pi /\
           exists phi, nth_error (l_phis L) j = Some phi /\
-            exists k : Z, y == phi + corr_of (l_offset L) (l_delay L) j - prev_of loops cp l j + inject_Z k * pi)%Q.
+            exists k : Z, y == phi + eff_corr fx L j - prev_of fx loops cp l j + inject_Z k * pi)%Q.
 Proof. exact update_loops_spec. Qed.
 Print Assumptions C12_borealis_range.
 
@@ -141,24 +171,37 @@ Proof. exact fix_phase_pi_shift_exists. Qed.
 Print Assumptions C12_borealis_pi_shift_refuted.
 
 (* ---- Borealis: insertion of loop-offset gates -------------------------------------------------------- *)
-(* If Borealis.compile's insertion loop succeeds, the result covers the layout and agrees with it position by
-   position in gate type and wires, and the user's commands all survive in their order. *)
+(* For both variants (fx as above, repair fix-borealis-truncated-program.diff): if Borealis.compile's insertion loop
+   succeeds, the result covers the layout and agrees with it position by position in gate type and wires, and the
+   user's commands all survive in their order. *)
 Theorem C12_borealis_insert :
-  forall circ seq out uo, insert_offsets circ seq = Some (out, uo) ->
+  forall fx circ seq out uo, insert_offsets fx circ seq = Some (out, uo) ->
     subseq seq out /\ length circ <= length out /\
     forall i c, nth_error circ i = Some c -> exists o, nth_error out i = Some o /\ ops_equal c o = true.
 Proof. exact insert_offsets_full. Qed.
 Print Assumptions C12_borealis_insert.
+
+(* with the repair _user_offsets has one entry per loop-offset gate of the layout for EVERY program; without it a
+   program that stops early gets fewer (finding borealis:truncated-program:IndexError) *)
+Theorem C12_borealis_user_offsets_complete :
+  forall circ seq out uo, insert_offsets true circ seq = Some (out, uo) -> length uo = length (filter b_off circ).
+Proof. exact insert_offsets_uo_complete. Qed.
+Print Assumptions C12_borealis_user_offsets_complete.
+
+Theorem C12_borealis_user_offsets_old_refuted :
+  exists circ seq out uo, insert_offsets false circ seq = Some (out, uo) /\ length uo < length (filter b_off circ).
+Proof. exact insert_offsets_uo_incomplete_old. Qed.
+Print Assumptions C12_borealis_user_offsets_old_refuted.
 
 (* hypotheses are satisfiable / the functions are not vacuous *)
 Example C12_ex_validate :
   validate Z Z.add Z.sub Z.leb [(0, [mkRange 0%Z 10%Z 1%Z])] [(0, Node [Leaf 11%Z; Node [Leaf (-1)%Z]])] = VOk.
 Proof. reflexivity. Qed.
 Example C12_ex_merge :
-  s2_stage Z 0%Z Z.add zneq 2 [1] [mkS2 0 2 5%Z 0%Z; mkS2 0 2 7%Z 0%Z]
-  = Ok [mkS2 1 3 0%Z 0%Z; mkS2 0 2 12%Z 0%Z].
+  s2_stage Z 0%Z Z.add Z.opp zneq 2 [1] [mkS2 0 2 5%Z 0%Z false; mkS2 0 2 7%Z 0%Z true]
+  = Ok [mkS2 1 3 0%Z 0%Z false; mkS2 0 2 (-2)%Z 0%Z false].
 Proof. reflexivity. Qed.
 Example C12_ex_insert :
-  insert_offsets [mkB 0 [3] false 0; mkB 1 [3] true 1; mkB 1 [2] false 2] [mkB 0 [3] false 10; mkB 1 [2] false 11]
-  = Some ([mkB 0 [3] false 10; mkB 1 [3] true 1; mkB 1 [2] false 11], [false]).
+  insert_offsets false [mkB 0 [3] false 0 false; mkB 1 [3] true 1 true; mkB 1 [2] false 2 true] [mkB 0 [3] false 10 false; mkB 1 [2] false 11 false]
+  = Some ([mkB 0 [3] false 10 false; mkB 1 [3] true 1 true; mkB 1 [2] false 11 false], [false]).
 Proof. reflexivity. Qed.
